@@ -733,6 +733,16 @@ class Machine:
             if known is not None and choice != known:
                 continue
             s2 = s.clone()
+            if isinstance(atom, tuple) and len(atom) == 2 and atom[0] == "__pcs__":
+                # an alternative that stands for a whole sequence of answered questions (a combinator run element by element)
+                extra = tuple(atom[1])
+                if any(a1 == a0 and c1 != c0 for a1, c1 in extra for a0, c0 in s.pc if isinstance(a1, T) and a1[0] == "call"):
+                    continue
+                s2.pc = s.pc + extra
+                self.write_place(s2, fi, t["dest"], val)
+                s2.frames[fi].bb = t["target"]
+                outs.append(s2)
+                continue
             s2.pc = s.pc + ((atom, choice),)
             self.write_place(s2, fi, t["dest"], val)
             s2.frames[fi].bb = t["target"]
